@@ -111,6 +111,7 @@ static mjModel* make_model(unsigned long long seed, unsigned feat, int nb, int i
     m->opt.disableflags |= DIS[(enable >> 14) & 15];
   }
   if ((enable >> 18) & 1) m->opt.noslip_iterations = 3;                // bit 18: noslip post-processing
+  if ((enable >> 19) & 1) m->opt.enableflags |= mjENBL_SLEEP;          // bit 19: sleeping (end-to-end runs only)
   return m;
 }
 static void base_state(const mjModel* m, mjData* d, unsigned long long seed) {
